@@ -56,6 +56,9 @@ type podCase struct {
 	Limit    string  `json:"nvidia_gpu_limit"`         // none | container | init
 	Named    string  `json:"fraction_container_name"`  // absent | regular | init | missing
 	Sharing  bool    `json:"admission_gpu_sharing_enabled"`
+	// Preset: the pod arrives with the runai/shared-gpu-configmap annotation already set (a template that
+	// pins the config-map prefix, or a webhook re-invocation) but WITHOUT the env / volume wiring
+	Preset bool `json:"configmap_annotation_preset,omitempty"`
 }
 
 func (p podCase) String() string {
@@ -65,8 +68,12 @@ func (p podCase) String() string {
 		}
 		return fmt.Sprintf("%q", *s)
 	}
-	return fmt.Sprintf("fraction=%s memory=%s devices=%s limit=%s named=%s sharing=%v",
-		f(p.Fraction), f(p.Memory), f(p.Devices), p.Limit, p.Named, p.Sharing)
+	pre := ""
+	if p.Preset {
+		pre = " configmap-annotation=preset"
+	}
+	return fmt.Sprintf("fraction=%s memory=%s devices=%s limit=%s named=%s sharing=%v%s",
+		f(p.Fraction), f(p.Memory), f(p.Devices), p.Limit, p.Named, p.Sharing, pre)
 }
 
 func gpuList() v1.ResourceList {
@@ -91,6 +98,9 @@ func (p podCase) build() *v1.Pod {
 	}
 	if p.Devices != nil {
 		pod.Annotations[constants.GpuFractionsNumDevices] = *p.Devices
+	}
+	if p.Preset {
+		pod.Annotations["runai/shared-gpu-configmap"] = "preset-cm"
 	}
 	switch p.Named {
 	case "regular":
